@@ -122,3 +122,58 @@ HX void hx_help_arg(uint64_t which, uint64_t) {
       vs_assert(count(os.str(), SPECS[i].desc) == (OWNER[which] == i ? 1u : 0u), "help for one argument prints exactly that argument's description");
    vs_assert((count(es.str(), "unknown") >= 1) == (OWNER[which] < 0), "an unknown key is reported as unknown");
 }
+
+namespace {
+std::string collapse(const std::string& s) {
+   std::string r; bool sp = false;
+   for (char c : s) { if (c == ' ' || c == '\n' || c == '\t') { sp = !r.empty(); continue; } if (sp) r += ' '; sp = false; r += c; }
+   return r;
+}
+}
+// descriptions that have to be wrapped: every word of the description is printed, in order, whatever the line length
+// (symbolic, 8 consecutive values from `base`), also when a word is wider than the description column
+HX void hx_usage_wrap(uint64_t base, uint64_t variant) {
+   std::ostringstream os, es;
+   Handler ah(os, es, Handler::hfHelpShort | Handler::hfUsageCont);
+   unsigned len = vs_u8("linelen"); vs_assume(len < 8);
+   ah.setUsageLineLength((int) (base + len));
+   static const char* const KEY1[] = {"c,configuration-directory-override", "c,conf"};
+   static const char* const SHOWN1[] = {"-c,--configuration-directory-override", "-c,--conf"};
+   static const char* const D1[] = {"/etc/application/conf.d holds the configuration files that are read at start",
+                                    "a-first-word-that-is-much-too-long-for-any-description-column-of-this-usage-because-it-is-long and then some short words"};
+   static const char* const D2 = "several short words that have to be wrapped over more than one line because the text is long enough for that";
+   int dst[2] = {0, 0};
+   ah.addArgument(KEY1[variant & 1], DEST_VAR(dst[0]), D1[(variant >> 1) & 1]);
+   ah.addArgument("b", DEST_VAR(dst[1]), D2);
+   char a0[] = "prog", a1[] = "-h"; char* argv[] = {a0, a1, nullptr};
+   int rc = 0;
+   try { ah.evalArguments(2, argv); } catch (const std::exception&) { rc = 1; } catch (...) { rc = 2; }
+   vs_assert(rc == 0, "printing the usage does not fail");
+   const std::string out = collapse(os.str());
+   vs_assert(count(out, collapse(std::string(SHOWN1[variant & 1]) + " " + D1[(variant >> 1) & 1])) == 1, "a wrapped description is printed completely: every word, in order, after the keys of its argument");
+   vs_assert(count(out, collapse(std::string("-b ") + D2)) == 1, "a wrapped description is printed completely: every word, in order, after the keys of its argument");
+}
+// help for a single argument when some arguments start a sub-group
+HX void hx_help_arg_group(uint64_t which, uint64_t) {
+   std::ostringstream os, es;
+   Handler ah(os, es, Handler::hfHelpArg | Handler::hfUsageCont);
+   Handler in_group(Handler::hfHelpShort), out_group(0);
+   int dst[4] = {0, 0, 0, 0};
+   ah.addArgument("q,quiet", DEST_VAR(dst[0]), "quiet-description");
+   in_group.addArgument("f,file", DEST_VAR(dst[1]), "input-file-description");
+   out_group.addArgument("f,file", DEST_VAR(dst[2]), "output-file-description");
+   ah.addArgument("i,input", in_group, "input-group-description");
+   ah.addArgument("o", out_group, "output-group-description");
+   static const char* const KEYS[] = {"q", "i", "input", "o", "x", "file"};
+   static const char* const WANT[] = {"quiet-description", "input-group-description", "input-group-description", "output-group-description", nullptr, nullptr};
+   std::string key = KEYS[which];
+   char a0[] = "prog", a1[] = "--help-arg"; char* kbuf = new char[key.size() + 1]; std::strcpy(kbuf, key.c_str());
+   char* argv[] = {a0, a1, kbuf, nullptr};
+   int rc = 0;
+   try { ah.evalArguments(3, argv); } catch (const std::exception&) { rc = 1; } catch (...) { rc = 2; }
+   delete[] kbuf;
+   vs_assert(rc == 0, "asking for the help of an argument does not fail");
+   for (const char* d : {"quiet-description", "input-group-description", "output-group-description"})
+      vs_assert(count(os.str(), d) == ((WANT[which] && std::string(WANT[which]) == d) ? 1u : 0u), "help for one argument prints exactly that argument's description (sub-group arguments included)");
+   vs_assert((count(es.str(), "unknown") >= 1) == (WANT[which] == nullptr), "an unknown key is reported as unknown");
+}
